@@ -3855,6 +3855,19 @@ func (w *Wallet) reliablyPublishTransaction(tx *wire.MsgTx,
 	// on-chain. This is done outside of the database transaction to prevent
 	// backend interaction within it.
 	if err := chainClient.NotifyReceived(ourAddrs); err != nil {
+		// The transaction was never handed to the backend, so it must
+		// not stay in the store: otherwise its inputs would remain
+		// spent and we'd keep re-broadcasting it although the caller
+		// was told that publishing failed.
+		dbErr := walletdb.Update(w.db, func(dbTx walletdb.ReadWriteTx) error {
+			txmgrNs := dbTx.ReadWriteBucket(wtxmgrNamespaceKey)
+			return w.TxStore.RemoveUnminedTx(txmgrNs, txRec)
+		})
+		if dbErr != nil {
+			log.Warnf("Unable to remove unpublished transaction "+
+				"%v: %v", tx.TxHash(), dbErr)
+		}
+
 		return nil, err
 	}
 
